@@ -31,6 +31,10 @@ C11_Pure ==
   /\ Check("the balance maps obtained from the store were modified", T.purity.balUnchanged)
   /\ Check("the metadata maps obtained from the store were modified", T.purity.metaUnchanged)
   /\ Check("the variables map was modified", T.purity.varsUnchanged)
+  /\ Check("a parsed script run with other variable texts differs from the same run on a freshly parsed script (state kept in the parsed script between runs)",
+           ("reuse" \in DOMAIN T) => Same(T.reuse.gotAlt, T.reuse.wantAlt))
+  /\ Check("running a parsed script with other variable texts in between changed what it does with the first ones",
+           ("reuse" \in DOMAIN T) => Same(T.reuse.again, T.reuse.first))
   /\ Check("the variables map was modified (texts padded with white space)", ("paddedVarsUnchanged" \in DOMAIN T) => T.paddedVarsUnchanged)
   /\ Check("repeated runs differ (non-determinism)", \A i \in 1..Len(T.repeats) : Same(T.repeats[i], T.seq))
   /\ Check("repeated runs on a store that answers exactly what is asked differ (non-determinism)",
